@@ -128,6 +128,7 @@ func runC11(p *core.Prog, r *core.Report) {
 	r.Rule("C11-R4", "validation before mutation: every state change in Add/Remove is reachable only after the mask-width test (bits == 32) and the address-length test succeeded; the prefix length is used as an index only after the /0 case was handled", 4)
 	r.Rule("C11-R5", "Contains normalises the address with To4() before reading its bytes and never rejects on the length of the un-normalised argument", 2)
 	r.Rule("C11-R6", "a list slot that receives an entry copied from another slot during removal is re-examined before the scan advances", 1)
+	r.Rule("C11-R7", "the maps-mode lookup consults every one of the 32 per-prefix-length maps (loop bounds)", 1)
 	r.NotDecided = append(r.NotDecided,
 		"full equivalence with the set-of-prefixes model over all operation histories (only its structural causes are checked)",
 		"that one Remove clears all duplicates is checked only as: the removal scan has no early exit and re-examines copied slots")
@@ -556,6 +557,84 @@ func runC11(p *core.Prog, r *core.Report) {
 		r.Check(bad == "", "C11-R5", "Contains: no length test on the raw argument", p.FuncPos(contains), "only the normalised address is inspected", bad)
 	}
 
+	// ---- R7: the maps-mode scan of Contains covers every prefix length
+	{
+		nLoops := 0
+		for _, hdr := range sx.LoopHeaders(contains) {
+			body := sx.LoopBody(hdr)
+			usesMaps := false
+			var idx *ssa.Phi
+			for b := range body {
+				for _, in := range b.Instrs {
+					if lk, ok := in.(*ssa.Lookup); ok {
+						if j, ok := syms.mapIndex(lk.X); ok {
+							usesMaps = true
+							if ph, ok := sx.Unspill(j).(*ssa.Phi); ok {
+								idx = ph
+							} else if b, ok := j.(*ssa.BinOp); ok {
+								if ph, ok := b.X.(*ssa.Phi); ok {
+									idx = ph
+								}
+							}
+						}
+					}
+				}
+			}
+			if !usesMaps {
+				continue
+			}
+			nLoops++
+			ok, why := false, "cannot determine the range of the scan over the per-length maps"
+			if idx != nil && idx.Block() == hdr {
+				var init, step int64
+				haveInit, haveStep := false, false
+				for _, e := range idx.Edges {
+					if k, isC := sx.ConstInt(e); isC {
+						init, haveInit = k, true
+					}
+					if b, isB := e.(*ssa.BinOp); isB && b.X == ssa.Value(idx) {
+						if k, isC := sx.ConstInt(b.Y); isC {
+							if b.Op == token.ADD {
+								step, haveStep = k, true
+							} else if b.Op == token.SUB {
+								step, haveStep = -k, true
+							}
+						}
+					}
+				}
+				// go/ssa rotates `range` loops: phi starts at -1 and the incremented value is tested and used
+				if iff, isIf := hdr.Instrs[len(hdr.Instrs)-1].(*ssa.If); isIf && haveInit && haveStep {
+					if c, isB := iff.Cond.(*ssa.BinOp); isB {
+						bound, isC := sx.ConstInt(c.Y)
+						tested := c.X
+						first := init
+						if b, isB := tested.(*ssa.BinOp); isB && b.X == ssa.Value(idx) {
+							first = init + step // rotated loop tests i+1
+						}
+						if isC {
+							switch {
+							case step == 1 && first == 0 && c.Op == token.LSS && bound == 32:
+								ok = true
+							case step == 1 && first == 0 && c.Op == token.LEQ && bound == 31:
+								ok = true
+							case step == -1 && first == 31 && c.Op == token.GEQ && bound == 0:
+								ok = true
+							case step == -1 && first == 31 && c.Op == token.GTR && bound == -1:
+								ok = true
+							default:
+								why = fmt.Sprintf("the scan runs from %d in steps of %d while index %s %d: not every one of the 32 per-length maps is consulted", first, step, c.Op, bound)
+							}
+						}
+					}
+				}
+			}
+			r.Check(ok, "C11-R7", "Contains: the maps-mode scan consults all 32 per-length maps", p.Pos(hdr.Instrs[0].Pos()), "index runs over 0..31", why)
+		}
+		if nLoops == 0 {
+			r.Fail("C11-R7", "Contains: the maps-mode scan consults all 32 per-length maps", p.FuncPos(contains), "no loop over the per-length maps found in Contains")
+		}
+	}
+
 	// ---- R6: slot copy re-examination in Remove
 	{
 		found := 0
@@ -811,6 +890,17 @@ func checkValidation(p *core.Prog, r *core.Report, fi *filterInfo, syms *filterS
 	}
 	r.Check(okBits, "C11-R4", name+": no state change before the mask-width test", p.FuncPos(fn), fmt.Sprintf("%d state-changing steps, all behind bits == 32", len(changes)), "a state change (atomic store / locked update) is reachable without passing the `bits == 32` test: an IPv6 or non-canonical mask would modify the filter")
 	r.Check(okLen, "C11-R4", name+": no state change before the address-length test", p.FuncPos(fn), "all state changes behind len(IP) == 4", "a state change is reachable without passing the `len(cidr.IP) == 4` test")
+	// the /0 case toggles only the match-all flag: every locked update lies behind the `ones != 0` edge
+	okZero, nLock := true, 0
+	sx.Instrs(fn, func(in ssa.Instruction) {
+		if c, ok := in.(*ssa.Call); ok && (sx.CalleeName(c) == "(*sync.RWMutex).Lock" || sx.CalleeName(c) == "(*sync.Mutex).Lock") {
+			nLock++
+			if len(nonZeroEdges) == 0 || !sx.MustPass(fn, nil, in, sx.Cut{Edges: nonZeroEdges}) {
+				okZero = false
+			}
+		}
+	})
+	r.Check(okZero, "C11-R4", name+": the /0 case changes nothing but the match-all flag", p.FuncPos(fn), fmt.Sprintf("%d locked update(s), all behind ones != 0", nLock), "the list/maps are modified on the path that handles 0.0.0.0/0: toggling match-all would add, drop or reset specific ranges")
 	// index uses of ones-1
 	okIdx := true
 	nIdx := 0
